@@ -91,7 +91,7 @@ func GenFaults(rt *rapid.T, t Tree, o FaultOpts) []Fault {
 		case KFile:
 			if o.Content {
 				if len(e.Data) > 0 {
-					kinds = append(kinds, "flip", "flip", "truncate", "extend", "empty")
+					kinds = append(kinds, "flip", "flip", "truncate", "extend", "empty", "reseed")
 				} else {
 					kinds = append(kinds, "fill")
 				}
@@ -132,8 +132,23 @@ func GenFaults(rt *rapid.T, t Tree, o FaultOpts) []Fault {
 			if f.N < 1 {
 				f.N = 1
 			}
-		case "tolink", "retarget":
+		case "tolink":
 			f.Dest = rapid.SampledFrom([]string{"nowhere", "../x", "f0", "a", "."}).Draw(rt, "faultdest")
+		case "retarget":
+			f.Dest = rapid.SampledFrom([]string{"nowhere", "../x", "f0", "a", ".", "=./", "=/", "=x/../", "=//"}).Draw(rt, "faultdest")
+			// "=..." variants: a different string that a path cleaner would map to the signed destination
+			if len(f.Dest) > 1 && f.Dest[0] == '=' {
+				switch f.Dest[1:] {
+				case "./":
+					f.Dest = "./" + e.Dest
+				case "/":
+					f.Dest = e.Dest + "/"
+				case "x/../":
+					f.Dest = "x/../" + e.Dest
+				default:
+					f.Dest = e.Dest + "//."
+				}
+			}
 		}
 		out = append(out, f)
 	}
@@ -173,6 +188,12 @@ func ApplyFaults(t Tree, fs []Fault) (Tree, []Fault) {
 				continue
 			}
 			e.Data = []byte{}
+		case "reseed":
+			// whole content replaced, same length: every block differs
+			if e.Kind != KFile || len(e.Data) == 0 {
+				continue
+			}
+			e.Data = Bytes(f.Seed^0x5eed, len(e.Data))
 		case "delete":
 			if e.Kind == KDir {
 				continue
